@@ -16,7 +16,7 @@ setseam.install(_eecc_module)       # `set(...)` in eecc.py now builds sets whos
 ID = "C09"
 RUNS = {"quick": 40000, "thorough": 60000, "thorough_s": 300}
 CHUNK = 100
-RUN_TIMEOUT = 120.0
+RUN_TIMEOUT = 1200.0        # CPU seconds; the thorough-tier scale runs (cliques of up to 2300 vertices) need ~140 s
 RULE = ("seeded simple graphs without isolated vertices: clustered graphs (unions of 3..12 mostly edge-disjoint cliques of 2-5 "
         "vertices, some overlapping on an edge or vertex, optionally a rook's-graph block; up to ~40 vertices), and 2..10 "
         "vertices (thorough ..14) G(n,p) at several densities, "
